@@ -47,6 +47,12 @@ CLAIMED["C18"] = {
     "note": "trusts: time_machine as the clock seam (C entry points patched), locale data files as template source; nominal unit lengths (365.2425 d year, 30.44 d month, 2% slack); Time.diff_for_humans is decided by L1 only; two open known finding classes (same-zone offset change, compiled mixed-zone date shift) are suppressed by signature only",
 }
 
+CLAIMED["C08"] = {
+    "text": "Seeded search over interleavings of format(), the to_*_string() helpers and from_format() (random token sequences with literals and escapes, full round-trip formats, partial formats, localized names in the 27 locales, mismatching strings) under a simulated clock biased to the last/first instants of a day, month or year in the zone the caller asks for, set_locale flips, restarts and both helper backends. Each result must equal the cold re-execution under one admissible (clock, locale) assignment; format() output must equal an independent renderer built on the standard library and the locale data; from_format(format()) must return the value's fields and offset; fields the format does not supply must come from the simulated now rendered in the requested zone (and the completed wall time follows the construction rules); mismatching strings must raise ValueError; compiled and pure-Python backends must agree.",
+    "ref": "DESIGN.md §5 C08",
+    "note": "trusts: stdlib strftime-free integer rendering + locale data tables as reference; formats are generated with literal separators so tokenisation is unambiguous; ordinal tokens (Do, Mo, ...) and LT..LLLL are decided by L1 and the round trip only; zone-name formats are not asserted for repeated wall times (a name cannot carry the occurrence)",
+}
+
 NOT_APPLICABLE = {
     "C03": "pure function of its arguments and immutable zone data: no clock, shared mutable slot, configuration or I/O in add/subtract with fixed units; nothing for a scheduler or fault injector to vary",
     "C04": "pure function of its arguments (calendar arithmetic + construction rules); Duration fields it reads are written once in __new__; no schedule, clock or fault dependence",
@@ -66,10 +72,10 @@ ALL = ["C%02d" % i for i in range(1, 21)]
 
 # designed as simulation targets (DESIGN.md §5) but whose check is not registered yet
 PENDING = {p: "simulation target per DESIGN.md §5, check still under construction in this commit (not claimed yet)"
-           for p in ("C01", "C08")}
+           for p in ("C01",)}
 
 FIX_COMMITS = ["0cac821 (C09 lazy-slot race)", "c2f908d (previous() never terminates across a skipped calendar day; C12/C16)",
-               "2c83944 (next() drifts to 01:00 after a skipped midnight; C16)", "6249586 (C12 week configuration read twice)", "1273e62 (C16 first_of/last_of depend on calendar.setfirstweekday())", "9fab684 (C02 mock local zone read twice)", "fc92ad3 (C06 precise_diff full-month shortcut, Python + Rust)", "b63f456 (Interval.__init__ dropped endpoint fold; C18)", "a0e6037 (zh before/after templates; C18)", "5ef6d18 (nl week_data misplaced; C18)"]
+               "2c83944 (next() drifts to 01:00 after a skipped midnight; C16)", "6249586 (C12 week configuration read twice)", "1273e62 (C16 first_of/last_of depend on calendar.setfirstweekday())", "9fab684 (C02 mock local zone read twice)", "fc92ad3 (C06 precise_diff full-month shortcut, Python + Rust)", "b63f456 (Interval.__init__ dropped endpoint fold; C18)", "a0e6037 (zh before/after templates; C18)", "5ef6d18 (nl week_data misplaced; C18)", "89fb712 (Rust ordinal dates on month ends; C08)", "ab5eca4 (z token regex; C08)", "77c9f3a (from_format escaped literals; C08)", "7d62906 (Do token without ordinal data; C08)"]
 
 
 def main():
